@@ -186,6 +186,9 @@ def run(model: Model, rep: Report) -> None:
     # ---------------------------------------------------------------- R8
     # ---------------------------------------------------------------- R11: every content (page or form) starts from the initial state
     fresh_state_rule(model, rep, "C05-R11")
+    from .c16 import colour_ops_guarded_rule
+
+    colour_ops_guarded_rule(model, rep, "C05-R14")
     ir5 = model.func(PI + "PDFPageInterpreter.init_resources")
     v5 = [unparse(n.value) for n in walk_no_nested(ir5.node) if isinstance(n, (ast.Assign, ast.AnnAssign)) and unparse(n.targets[0] if isinstance(n, ast.Assign) else n.target) == "self.csmap"]
     r12 = rep.rule("C05-R12", "ALIAS", "a form XObject's colour-space names stay in the form: every interpreter works on its own copy of the predefined colour-space table", 1)
@@ -457,3 +460,22 @@ def _operand_safety(model: Model, rep: Report, spec: dict) -> None:
         r7.ok(site(htj), htj.qualname, "TJ operand type-checked")
     else:
         r7.violation(site(htj), htj.qualname, "cast(PDFTextSeq, seq) passed on without a type test", "`5 TJ` makes the device iterate an int: TypeError aborts the page")
+
+
+def cm_order_rule(model: Model, rep: Report, rid: str) -> None:
+    """cm: CTM' = operand matrix x CTM (the new matrix is applied first, 8.3.4) - as a polynomial identity."""
+    from . import interp as I2
+
+    spec = I2.load_ops()
+    r = rep.rule(rid, "NORMFORM", "cm pre-multiplies: the new CTM is (operand matrix) x (current CTM), so nested transformations compose in the order the spec gives", 1)
+    hcm = _need(I2.handler(model, "cm", spec["mangling"]), "cm")
+    se = _se(model)
+    sts = I2.assigns_to(hcm, "self.ctm")
+    try:
+        val, _ = _eval_assign(hcm, sts[0], se)
+        ops = tuple(Poly.var(p) for p in hcm.params[1:7])
+        Cm = _vec("self.ctm", 6)
+        want = se.calls["mult_matrix"](ops, Cm)
+        r.check(val == want, site(hcm, sts[0]), hcm.qualname, "cm: CTM' = operand matrix x CTM", why=f"got {val!r}: with the factors the other way round a scale followed by a translate (or any two matrices that do not commute) places every later shape wrongly")
+    except (NotPolynomial, IndexError) as ex:
+        r.violation(site(hcm), hcm.qualname, "cm: CTM' = operand matrix x CTM", f"cannot evaluate: {ex}")
